@@ -351,7 +351,7 @@ write_function_instance(ostream &out, int indent_level,
         format_specifiers += "s#";
         parameter_list += ", &" + param_name
           + "_str, &" + param_name + "_len";
-        pexpr_string = "basic_string<char>(" +
+        pexpr_string = "std::basic_string<char>(" +
           param_name + "_str, " +
           param_name + "_len)";
       }
